@@ -58,6 +58,16 @@ Grad4(t, ms) ==
                              as == AsgSeq(M.proj, I.sz)
                          IN  M.w4 * back[CHOOSE i \in DOMAIN as : as[i] = Restr(x, SeqRange(M.proj))]], ms)]
 
+\* 2 * the L1 (sub)gradient the implementation uses (l.301-304): Q^T sign(residual) / noise, with sign(0) = 0
+Sgn(x) == IF x < 0 THEN -1 ELSE IF x > 0 THEN 1 ELSE 0
+Grad1x2(t, ms) ==
+  [x \in DOMAIN t.v |->
+     SumFn([m \in ms |-> LET M == I.meas[m]
+                             r == Resid(m, t)
+                             back == TMatVec(M.Q, [i \in DOMAIN r |-> Sgn(r[i])], Len(M.Q[1]))
+                             as == AsgSeq(M.proj, I.sz)
+                         IN  M.w2 * back[CHOOSE i \in DOMAIN as : as[i] = Restr(x, SeqRange(M.proj))]], ms)]
+
 GroupOf(c) == {m \in AllM : group[m] = c}
 LipHome(m) == IF LipRule = "size" THEN SizeHome(m) ELSE ModelHome(m)
 \* 4 * the smoothness constant as the implementation computes it: <<num, den>> per clique, then the max
@@ -68,7 +78,8 @@ Lip4 == MaxOf({LipNumDen(c) : c \in 1..NC} \cup {0})
 Finish == /\ k = NM + 1 /\ ~done /\ done' = TRUE
           /\ PrintT(<<"EMIT", ToJson([iid |-> iid, group |-> group, loss8 |-> Loss8, l1x2 |-> L1x2, lip4 |-> Lip4,
                  g4 |-> [c \in 1..NC |-> Flat([at |-> CliqueSet(c), v |-> Grad4(Mu(c), GroupOf(c))], I.cliques[c], I.sz)],
-                 gjoint4 |-> Flat([at |-> I.V, v |-> Grad4(P, AllM)], I.ord, I.sz)])>>)
+                 gjoint4 |-> Flat([at |-> I.V, v |-> Grad4(P, AllM)], I.ord, I.sz),
+                 g1joint2 |-> Flat([at |-> I.V, v |-> Grad1x2(P, AllM)], I.ord, I.sz)])>>)
           /\ UNCHANGED <<iid, group, k>>
 Next == Assign \/ Finish
 Spec == Init /\ [][Next]_vars
@@ -84,6 +95,12 @@ GradIsDerivative ==
   Ready => \A c \in 1..NC : \A x \in DOMAIN Mu(c).v :
              Loss8On(Bump(Mu(c), x, 1), GroupOf(c)) - Loss8On(Bump(Mu(c), x, -1), GroupOf(c))
                = 4 * Grad4(Mu(c), GroupOf(c))[x]
+\* the L1 direction is a subgradient of the (convex, piecewise linear) absolute loss along every unit vector
+L1SubGradient ==
+  Ready => \A c \in 1..NC : \A x \in DOMAIN Mu(c).v :
+             LET g == Grad1x2(Mu(c), GroupOf(c))[x]
+             IN  /\ L1x2On(Bump(Mu(c), x, 1), GroupOf(c)) - L1x2On(Mu(c), GroupOf(c)) >= g
+                 /\ L1x2On(Mu(c), GroupOf(c)) - L1x2On(Bump(Mu(c), x, -1), GroupOf(c)) <= g
 \* smoothness: v'Hv <= L v'v on each clique block of the Hessian (it is block diagonal), integer directions
 Dirs(c) == [Asg(CliqueSet(c), I.sz) -> {-1, 0, 1, 2}]
 Zero(c) == [at |-> CliqueSet(c), v |-> [x \in Asg(CliqueSet(c), I.sz) |-> 0]]
